@@ -119,6 +119,9 @@ Section Spec.
 Variable H : str -> str.
 Variable perms : list str -> list (list str).
 Variable node_order : list str -> list str.
+(* [true] = the algorithm of the Recommendation; [false] = the same without step 5.2.1 of 4.4
+   (used to state what is proved about the implementation, which has no such step) *)
+Variable step_5_2_1 : bool.
 Variable d : list quad.                 (* the input dataset *)
 
 (* ---------- 4.6 Hash First Degree Quads ---------- *)
@@ -272,7 +275,7 @@ Fixpoint sp_step5_2 (fuel : nat) (canon : sp_issuer) (ids : list str)
   match ids with
   | [] => SpOk []
   | n :: ids' =>
-      if sp_has canon n then sp_step5_2 fuel canon ids'                    (* 5.2.1 *)
+      if step_5_2_1 && sp_has canon n then sp_step5_2 fuel canon ids'      (* 5.2.1 *)
       else
         let temporary := sp_issue_ (mkIss [98] 0 []) n in                  (* 5.2.2, 5.2.3 *)
         match sp_n_degree fuel canon n temporary with                      (* 5.2.4 *)
@@ -325,7 +328,7 @@ Definition label_order (l : list str) : list str := sort_by str_leb l.
 Definition three_ok (repaired : bool) (tbl : list (str * str)) (df1000 plimit : N) (d : list quad)
            (code : N) (bytes : str) (idmap : list (str * str)) : bool :=
   impl_ok repaired tbl df1000 plimit d code bytes idmap
-  && match spec_model (tbl_H tbl) heap_perms label_order d (fuel_for d) with
+  && match spec_model (tbl_H tbl) heap_perms label_order true d (fuel_for d) with
      | SpOk (b, i) =>
          if code =? 0 then str_eqb b bytes && list_eqb pair_eqb (sort_by pair_leb i) idmap
          else (code =? 3) || (code =? 4)       (* only a configured limit may stand in the way *)
